@@ -47,6 +47,8 @@ type fakeCLN struct {
 	gl   *glightning.Lightning
 	mu   sync.Mutex
 	prep map[string]*clnPrepared
+	// connections served (closed by close(): the client's read loop then shuts the client down, once)
+	conns []net.Conn
 }
 
 // newCLNWallet starts the two fake servers for this incarnation and returns the real CLN client wired to them.
@@ -84,8 +86,14 @@ func (b *BtcWallet) newCLNWallet(inc *Incarnation) (swap.Wallet, error) {
 func (f *fakeCLN) close() {
 	f.ln.Close()
 	f.http.Close()
-	if f.gl != nil {
-		f.gl.Shutdown()
+	// glightning's client shuts itself down when its connection ends; an explicit Shutdown() in addition races with
+	// that (jrpc2.Client.Shutdown closes a channel twice: "panic: close of closed channel")
+	f.mu.Lock()
+	cs := f.conns
+	f.conns = nil
+	f.mu.Unlock()
+	for _, c := range cs {
+		c.Close()
 	}
 }
 
@@ -107,6 +115,9 @@ type rpcReq struct {
 
 func (f *fakeCLN) serve(conn net.Conn) {
 	defer conn.Close()
+	f.mu.Lock()
+	f.conns = append(f.conns, conn)
+	f.mu.Unlock()
 	dec := json.NewDecoder(conn)
 	for {
 		var req rpcReq
